@@ -1022,3 +1022,71 @@ package hermes
 //@   invariant[C04.b] radyears: forall(z, 0, y, forall(i, 0, T(z), s.RADI[z][i] == zeroed(old(s.RADI)[z][i]) && s.REG[z][i] == zeroed(old(s.REG)[z][i])))
 //@   invariant[C04.b] raddone: forall(i, 0, \i, s.RADI[y][i] == zeroed(old(s.RADI)[y][i]) && s.REG[y][i] == zeroed(old(s.REG)[y][i]))
 //@   invariant[C04.b] radtodo: forall(i, \i, 366, s.RADI[y][i] == old(s.RADI)[y][i] && s.REG[y][i] == old(s.REG)[y][i]) && forall(z, y+1, yrz, s.RADI[z] == old(s.RADI)[z] && s.REG[z] == old(s.REG)[z])
+
+// loading one year of the prepared series into the model's day-of-year arrays: day t of the model is day t of that year
+//@ func LoadYear
+//@   serves C04
+//@   ghost var yi int = 0-1
+//@   after stmt "g.JTAG = days": ghost yi = yearIdx
+//@   define ny() = len(s.MaxYearDays)
+//@   requires[C04.l] lens: ny() <= len(s.JAR) && ny() <= len(s.TMP) && ny() <= len(s.TMI) && ny() <= len(s.TMA) && ny() <= len(s.RELF) && ny() <= len(s.RADI) && ny() <= len(s.WIN) && ny() <= len(s.REG) && ny() <= len(s.SUND) && ny() <= len(s.VERD) && ny() <= len(s.ETNULL) && ny() <= len(s.CO2KONZ)
+//@   requires[C04.l] days: forall(y, 0, ny(), 0 <= s.MaxYearDays[y] && s.MaxYearDays[y] <= 366)
+//@   ensures which: isnil(\result) ==> 0 <= yi && yi < ny() && s.JAR[yi] == year && forall(y, 0, yi, s.JAR[y] != year)
+//@   ensures length: isnil(\result) ==> g.JTAG == s.MaxYearDays[yi]
+//@   ensures sameday: isnil(\result) ==> forall(t, 0, g.JTAG, g.TEMP[t] == s.TMP[yi][t] && g.REGEN[t] == s.REG[yi][t] && g.RAD[t] == s.RADI[yi][t] && g.WIND[t] == s.WIN[yi][t] && g.RH[t] == s.RELF[yi][t])
+//@   ensures extremes: isnil(\result) ==> forall(t, 0, g.JTAG, ite(s.TMI[yi][t] > s.TMA[yi][t] + 0.5, g.TMIN[t] == s.TMA[yi][t] && g.TMAX[t] == s.TMI[yi][t], g.TMIN[t] == s.TMI[yi][t] && g.TMAX[t] == s.TMA[yi][t]))
+//@   ensures optional: isnil(\result) ==> forall(t, 0, g.JTAG, (s.hasSUND ==> g.SUND[t] == s.SUND[yi][t]) && (s.hasVERD ==> g.VERD[t] == s.VERD[yi][t]) && (s.hasETNULL ==> g.ETNULL[t] == s.ETNULL[yi][t]))
+//@   ensures missing: !isnil(\result) ==> forall(y, 0, ny(), s.JAR[y] != year) && unchanged(g.TEMP, g.TMIN, g.TMAX, g.REGEN, g.RAD, g.WIND, g.RH, g.JTAG)
+//@   safety[C04.l] index
+//@ loop LoadYear#1
+//@   invariant range: 0 <= \i && \i <= ny() && loadedYears == ny()
+//@   invariant notyet: forall(y, 0, \i, s.JAR[y] != year)
+//@   invariant untouched: unchanged(g.TEMP, g.TMIN, g.TMAX, g.REGEN, g.RAD, g.WIND, g.RH, g.JTAG, g.SUND, g.VERD, g.ETNULL) && yi == 0-1
+//@ loop LoadYear#2
+//@   invariant range: 0 <= \i && \i <= days && days == s.MaxYearDays[yearIdx] && 0 <= yearIdx && yearIdx < ny()
+//@   invariant sameday: forall(t, 0, \i, g.TEMP[t] == s.TMP[yearIdx][t] && g.REGEN[t] == s.REG[yearIdx][t] && g.RAD[t] == s.RADI[yearIdx][t] && g.WIND[t] == s.WIN[yearIdx][t] && g.RH[t] == s.RELF[yearIdx][t])
+//@   invariant extremes: forall(t, 0, \i, ite(s.TMI[yearIdx][t] > s.TMA[yearIdx][t] + 0.5, g.TMIN[t] == s.TMA[yearIdx][t] && g.TMAX[t] == s.TMI[yearIdx][t], g.TMIN[t] == s.TMI[yearIdx][t] && g.TMAX[t] == s.TMA[yearIdx][t]))
+//@   invariant optional: forall(t, 0, \i, (s.hasSUND ==> g.SUND[t] == s.SUND[yearIdx][t]) && (s.hasVERD ==> g.VERD[t] == s.VERD[yearIdx][t]) && (s.hasETNULL ==> g.ETNULL[t] == s.ETNULL[yearIdx][t]))
+
+// calendar of the day loop: the day of year advances by one, rolls over after the last day of the loaded year, and a failing
+// weather loader ends the run (ghost werr records a loader error; reaching the end of the region means there was none)
+//@ region HermesSession.Run$1#calendar from "g.TAG.Add(g.DT.Index)" to "if g.TAG.Num == g.DT.Num {"
+//@   serves C04, C05
+//@   opaque WetterK
+//@   ghost var werr bool = false
+//@   after call LoadYear: ghost werr = werr || !isnil(res0)
+//@   after call WetterK: ghost werr = werr || !isnil(res0)
+//@   requires step: g.DT.Index == 1 && g.DT.Num == 1
+//@   requires day: 0 <= g.TAG.Index && g.TAG.Index + 1 <= g.JTAG && g.TAG.Offset == 1 && g.TAG.Num == real(g.TAG.Index + g.TAG.Offset)
+//@   requires year: g.JTAG == 365 || g.JTAG == 366
+//@   ensures[C04,C05] nextday: ite(old(g.TAG.Index) + 2 > old(g.JTAG), g.TAG.Index == 0 && g.J == old(g.J) + 1, g.TAG.Index == old(g.TAG.Index) + 1 && g.J == old(g.J))
+//@   ensures[C04,C05] dual: g.TAG.Num == real(g.TAG.Index + 1)
+//@   ensures[C04] loadererrors: !werr
+//@   ensures[C04] reload: g.TAG.Index == 0 && (driConfig.WeatherFileFormat == 0 || driConfig.WeatherFileFormat == 1 || driConfig.WeatherFileFormat == 2) ==> exists(y, 0, len(bbbShared.MaxYearDays), bbbShared.JAR[y] == 1900 + g.J && g.JTAG == bbbShared.MaxYearDays[y])
+
+// lock-step lemma: day number and (year, day of year) advance together (years of 365 + leap days as loaded)
+//@ lemma C04-lockstep
+//@   serves C04, C05
+//@   var zeit int
+//@   var y int
+//@   var doy0 int
+//@   var len int
+//@   assume 1901 <= y && y < 2099
+//@   assume len == ite(leap(y), 366, 365)
+//@   assume 0 <= doy0 && doy0 < len
+//@   assume zeit == daynumber(y, 1, 1) + doy0
+//@   prove sameyear: doy0 + 1 < len ==> zeit + 1 == daynumber(y, 1, 1) + (doy0 + 1)
+//@   prove rollover: doy0 + 1 >= len ==> zeit + 1 == daynumber(y + 1, 1, 1) + 0
+
+// first simulation year: every reader/loader error ends the run before Init
+//@ region HermesSession.Run$1#firstyear from "if driConfig.WeatherFileFormat == 1 { yearEnde" to "if driConfig.WeatherFileFormat == 1 { yearEnde"
+//@   serves C04
+//@   opaque WetterK ReadWeatherCSV ReadWeatherCZ
+//@   ghost var werr bool = false
+//@   after call LoadYear: ghost werr = werr || !isnil(res0)
+//@   after call WetterK: ghost werr = werr || !isnil(res0)
+//@   after call ReadWeatherCSV: ghost werr = werr || !isnil(res0)
+//@   after call ReadWeatherCZ: ghost werr = werr || !isnil(res0)
+//@   requires window: 1 <= g.ENDE && g.ENDE <= 72684
+//@   ensures loadererrors: !werr
+//@   ensures loaded: (driConfig.WeatherFileFormat == 0 || driConfig.WeatherFileFormat == 1 || driConfig.WeatherFileFormat == 2) ==> exists(y, 0, len(bbbShared.MaxYearDays), bbbShared.JAR[y] == 1900 + g.J && g.JTAG == bbbShared.MaxYearDays[y])
